@@ -6,6 +6,9 @@ use crate::core::consensus::blockchain::Blockchain;
 use crate::core::consensus::peers::peer_collection::PeerCollection;
 use ahash::HashMap;
 use log::{debug, error, info, trace, warn};
+#[cfg(saito_verif)]
+use crate::core::util::verif::RwLock;
+#[cfg(not(saito_verif))]
 use tokio::sync::RwLock;
 
 use crate::core::defs::{BlockHash, BlockId, PeerIndex, PrintForLog, SaitoHash};
